@@ -1,6 +1,8 @@
 //! vharness: bounded-exhaustive / explicit-state exploration of the real pc-keyboard code.
 //! usage: vharness <C01..C20> <quick|thorough> | vharness replay <file> | vharness dump-layouts
 
+#![allow(dead_code, unused_mut, unused_assignments)]
+
 mod common;
 mod explore;
 mod props;
